@@ -3,6 +3,7 @@ import BM.Url
 import BM.Css
 import BM.Policy
 import BM.Gen.Unicode
+import BM.Unicode
 /-
   Model of sanitize.go: the token loop (`sanitize`), `sanitizeAttrs`, `sanitizeStyles`,
   `validURL`, `linkable`, `isDataAttribute`, `removeUnicode`, `matchRegex`,
@@ -10,24 +11,6 @@ import BM.Gen.Unicode
 -/
 namespace BM
 open Html
-
-/-! ### Unicode helpers from generated tables (Go's `unicode` package) -/
-
-/-- look a rune up in a run table `(lo, hi, stride, delta)`: rune ↦ rune + delta (delta is
-    stored as a Nat offset by 2^21 to stay in Nat). -/
-def runLookup (runs : List (Nat × Nat × Nat × Nat)) (r : Rune) : Rune :=
-  match runs.find? fun (lo, hi, stride, _) => lo ≤ r && r ≤ hi && (r - lo) % stride == 0 with
-  | some (_, _, _, d) => r + d - 2097152
-  | none => r
-
-def runeToLower (r : Rune) : Rune :=
-  if r < 0x80 then (if 65 ≤ r && r ≤ 90 then r + 32 else r) else runLookup Gen.toLowerRuns r
-
-def runeSimpleFold (r : Rune) : Rune := runLookup Gen.simpleFoldRuns r
-
-/-- `strings.ToLower` (invalid bytes come out as U+FFFD when any non-ASCII is present). -/
-def toLowerGo (s : Bytes) : Bytes :=
-  if s.all (· < 0x80) then lowerAscii s else encodeRunes ((decodeRunes s).map runeToLower)
 
 /-- smallest member of a rune's simple-fold orbit -/
 def foldMin (r : Rune) : Rune :=
